@@ -20,7 +20,8 @@ use crate::rt;
 const P: &str = "C02";
 
 fn gen_entry(pool: &mut Vec<String>, ctr: &mut u64, nonce: u64) -> String {
-	let s = match rt::draw("entry_kind", 12) {
+	let s = match rt::draw("entry_kind", 13) {
+		12 => rt::pick("array_entry", &["[7]", "[\"2.0\",1,\"echo\"]", "[]", "[\"2.0\",\"echo\",[5]]", "[null]"]).to_string(),
 		0 => format!("{{\"jsonrpc\":\"2.0\",\"id\":\"sub-{nonce}\",\"method\":\"sub\",\"params\":[{nonce}]}}"),
 		1 => format!("{{\"jsonrpc\":\"2.0\",\"id\":\"unsub-{nonce}\",\"method\":\"unsub\",\"params\":[{}]}}", rt::pick("unsub_param", &["9000", "\"sub-9001\"", "\"nope\"", "{}"])),
 		2 if !pool.is_empty() => {
